@@ -516,6 +516,13 @@ static const char *explain(const struct cfg *c, const struct txline *t, const ch
 			if (try_decode(&c2, c->req, t)) { q = "model:C04:Q-marginal-sampling-rate"; vf_count("quirk_marginal_sampling_rate", 1); }
 		}
 	}
+	else if (c->rate < 1.06 * floor_rate || c->rate < 2.24 * t->s->clock) {
+		/* Inside the window of the same named deviation, but a fresh decoder reads the line: the decoder in use
+		   carries the slicers' adapted thresholds over from earlier frames, which moves the margin (thorough tier:
+		   36 of 3.2 M cases, all below 2.05 samples per symbol, frames 1 and 2).  Same cause, same key; counted apart. */
+		q = "model:C04:Q-marginal-sampling-rate";
+		vf_count("quirk_marginal_sampling_rate_only_with_decoder_history", 1);
+	}
 	if (ncache < 16) { cache_id[ncache] = t->s->id; cache_line[ncache] = t->line; cache_in[ncache] = key; cache_key[ncache] = q; cache_diag[ncache] = g_diag; ncache++; }
 	return q ? q : key;
 }
